@@ -809,6 +809,7 @@ def run_check(chk: PropertyCheck, tier: str, seed: int, replay: str | None = Non
             t_extra0 = t_extra0 or time.time()
             if time.time() - t_extra0 > chk.escalation_budget_s / 2:
                 break
+            c["_extra"] = True
         obs, sk = safe_impl(chk, c)
         if sk:
             skipped += 1
@@ -818,7 +819,9 @@ def run_check(chk: PropertyCheck, tier: str, seed: int, replay: str | None = Non
         tags[c.get("tag", "?")] = tags.get(c.get("tag", "?"), 0) + 1
         evaluated.append((c, obs))
 
-    # model side, batched
+    # model side, batched.  The complete base set always goes through the driver; the extra (escalated)
+    # cases go in chunks under a time budget — what does not fit is judged by the oracle alone.
+    n_eval_base = len(evaluated) if n_base is None else sum(1 for c, _ in evaluated if not c.get("_extra"))
     reqs, spans = [], []
     for c, obs in evaluated:
         try:
@@ -827,7 +830,26 @@ def run_check(chk: PropertyCheck, tier: str, seed: int, replay: str | None = Non
             rs = []
         spans.append((len(reqs), len(reqs) + len(rs)))
         reqs.extend(rs)
-    resps = run_driver(pid, reqs)
+    n_req_base = spans[n_eval_base - 1][1] if n_eval_base and spans else 0
+    if n_eval_base >= len(evaluated):
+        resps = run_driver(pid, reqs)
+    else:
+        resps = run_driver(pid, reqs[:n_req_base])
+        t_drv = time.time()
+        k = n_eval_base
+        model_dropped = 0
+        while k < len(evaluated):
+            k2 = min(len(evaluated), k + 150)
+            a0, b0 = spans[k][0], spans[k2 - 1][1]
+            if time.time() - t_drv > chk.escalation_budget_s:
+                for q in range(k, len(evaluated)):
+                    spans[q] = (0, 0)
+                    model_dropped += 1
+                break
+            resps.extend(run_driver(pid, reqs[a0:b0]))
+            k = k2
+        if model_dropped:
+            print(f"NOTE: {model_dropped} escalated cases judged by the oracle only (driver time budget)", flush=True)
 
     cmp = Cmp(chk.rtol, chk.atol)
     disagreements = []
